@@ -117,9 +117,21 @@ class IkeSaController:
         spi = bytes(xfrm_expire.state.id.spi)
         hard = xfrm_expire.hard
         logging.debug(f'Received EXPIRE for CHILD_SA SPI={spi.hex()}. Hard={hard}')
-        ike_sa = self._get_ike_sa_by_child_sa_spi(spi)
+        # the kernel names an SA by (destination address, SPI): SPI values alone are not unique, the outbound ones are
+        # chosen by the peers. Only fall back to the bare SPI when the notice carries no usable address
+        ike_sa, inbound = None, None
+        if xfrm_expire.state.family in (socket.AF_INET, socket.AF_INET6):
+            daddr = xfrm_expire.state.id.daddr.to_ipaddr(xfrm_expire.state.family)
+            for candidate in self.ike_sas:
+                for child_sa in candidate.child_sas:
+                    if child_sa.inbound_spi == spi and candidate.my_addr == daddr:
+                        ike_sa, inbound = candidate, True
+                    elif child_sa.outbound_spi == spi and candidate.peer_addr == daddr:
+                        ike_sa, inbound = candidate, False
+        if ike_sa is None:
+            ike_sa = self._get_ike_sa_by_child_sa_spi(spi)
         if ike_sa:
-            request = ike_sa.process_expire(spi, hard)
+            request = ike_sa.process_expire(spi, hard, inbound)
             return request, ike_sa.my_addr, ike_sa.peer_addr
         return None, None, None
 
